@@ -248,6 +248,9 @@ def _build_program():
   lines = [PRELUDE]
   for i, t in enumerate(GRAMMAR):
     lines.append("def f%d(x: %s): pass" % (i, spell(t)))
+    lines.append("def k%d(a=0, *, x: %s): pass" % (i, spell(t)))
+    lines.append("def s%d(a=0, *x: %s): pass" % (i, spell(t)))
+    lines.append("def d%d(a=0, **x: %s): pass" % (i, spell(t)))
   for j, e in enumerate(VALUES):
     lines.append("v%d = %s" % (j, e))
   return "\n".join(lines) + "\n"
@@ -282,12 +285,17 @@ def _lookup_globals():
 
 _GL = _lookup_globals()
 FUNCS = []
+KFUNCS, SFUNCS, DFUNCS = [], [], []
 ANNS = []
 for _i in range(NA):
   (_f,) = _GL["f%d" % _i].data
   FUNCS.append(_f)
   ANNS.append(_f.signature.annotations["x"])
+  for _l, _p in ((KFUNCS, "k"), (SFUNCS, "s"), (DFUNCS, "d")):
+    (_f,) = _GL["%s%d" % (_p, _i)].data
+    _l.append(_f)
 VARS = [_GL["v%d" % _j] for _j in range(NV)]
+ZERO = CTX.convert.constant_to_var(0, node=NODE)
 for _v in VARS:
   assert len(_v.bindings) == 1, _v
 
@@ -345,11 +353,21 @@ def shard_key(s):
 def sites(i, j):
   """(argument error?, return error?, assignment error?) from the real code."""
   f, ann, var = FUNCS[i], ANNS[i], VARS[j]
-  try:
-    f.match_args(NODE, function.Args(posargs=(var,)), None, False)
-    arg_err = False
-  except error_types.FailedFunctionCall:
-    arg_err = True
+  # the argument site in its five call forms: positional, by keyword,
+  # keyword-only parameter, collected by *x: T, collected by **x: T
+  arg_errs = []
+  for fn, args in (
+      (f, function.Args(posargs=(var,))),
+      (f, function.Args(posargs=(), namedargs={"x": var})),
+      (KFUNCS[i], function.Args(posargs=(), namedargs={"x": var})),
+      (SFUNCS[i], function.Args(posargs=(ZERO, var))),
+      (DFUNCS[i], function.Args(posargs=(), namedargs={"y": var}))):
+    try:
+      fn.match_args(NODE, args, None, False)
+      arg_errs.append(False)
+    except error_types.FailedFunctionCall:
+      arg_errs.append(True)
+  arg_err = arg_errs[0] if len(set(arg_errs)) == 1 else tuple(arg_errs)
   n0 = len(CTX.errorlog)
   ok = CTX.vm._check_return(NODE, var, ann)  # pylint: disable=protected-access
   n1 = len(CTX.errorlog)
